@@ -11,7 +11,10 @@ The Coq side evaluates guard_<op> (faithful transliteration of the code's checks
 descriptors; both must agree with pyttb's Rejected/Answered (a disagreement inside an open finding's trigger
 region is attributed to that finding)."""
 from vcheck import Case
-import c19_ops as O
+try:
+    from props import c19_ops as O
+except ImportError:      # imported with tools/props on sys.path
+    import c19_ops as O
 
 PROP = "C19"
 LEVEL = "proof"
@@ -31,7 +34,7 @@ EXPLANATION = ("Theorems: for every covered operation guard_<op> (transliteratio
                "is refuted by a witness and the partial version is proved. Correspondence: pyttb vs guard_<op> and pre_<op> on "
                "the malformed stream (Rejected = any exception before a value is returned), receiver snapshot compared "
                "byte-for-byte.")
-CORRESPONDENCE_ONLY = O.CORRESPONDENCE_ONLY
+CORRESPONDENCE_ONLY = sorted(n for n in O.OPS if n not in O.PROVED)
 ASSUMPTIONS = ["which exception type is raised is not part of the property and is not compared",
                "guard_<op> is a hand transliteration of the checks (tied to the code by the correspondence stream only, "
                "except tt_dimscheck which is translated from source)",
@@ -39,17 +42,31 @@ ASSUMPTIONS = ["which exception type is raised is not part of the property and i
                "(and, for sparse receivers, on whether any nonzero is stored — both cases are generated)"]
 
 
+CAP = {"quick": 150, "thorough": 1200}
+
+
 def gen_cases(rng, tier):
+    """per operation: all tags kept; within a tag a seeded sample so that an operation has <= CAP[tier] cases"""
     cases = []
-    seen = set()
     for name, op in O.OPS.items():
+        bytag = {}
+        seen = set()
         for args, tag in op.gen(rng, tier):
             c = Case(name, dict(args, tag=tag), tag != "control")
             k = c.key()
             if k in seen:
                 continue
             seen.add(k)
-            cases.append(c)
+            bytag.setdefault(tag, []).append(c)
+        total = sum(len(v) for v in bytag.values())
+        cap = CAP[tier]
+        if total > cap:
+            per = max(8, cap // len(bytag))
+            for tag in bytag:
+                if len(bytag[tag]) > per:
+                    bytag[tag] = rng.sample(bytag[tag], per)
+        for tag in bytag:
+            cases += bytag[tag]
     return cases
 
 
@@ -64,9 +81,9 @@ def coq_check(c, o):
     a = op.coq(c.args)
     rej = "true" if o["rejected"] else "false"
     same = "true" if (o["recv_same"] or (op.mutating and not o["rejected"])) else "false"
-    if op.pre_only:
-        return f"Bool.eqb (negb (pre_{op.cname} {a})) {rej} && {same}"
-    return f"c19_agree (guard_{op.cname} {a}) (pre_{op.cname} {a}) {rej} && {same}"
+    if op.guard_c is None:
+        return f"c19_pre_agrees (pre_{op.pre_c} {a}) {rej} && {same}"
+    return f"c19_agree (guard_{op.guard_c} {a}) (pre_{op.pre_c} {a}) {rej} && {same}"
 
 
 def oracle(c, o):
